@@ -228,6 +228,17 @@ func (e *modelEnv) numberOf(as *AbsStr) string {
 	f := math.Float64frombits(e.bv(fpBits(e.s.W.numVal(as.Id))))
 	sp := strconv.FormatFloat(f, 'g', -1, 64)
 	for k := 0; ; k++ {
+		if math.IsInf(f, 0) {
+			// a JSON number literal beyond the float64 range (accepted by a UseNumber decoder)
+			sp = fmt.Sprintf("1e%d", 400+k)
+			if f < 0 {
+				sp = "-" + sp
+			}
+			if _, used := e.usedSp[sp]; !used {
+				break
+			}
+			continue
+		}
 		if _, used := e.usedSp[sp]; !used {
 			break
 		}
